@@ -4,6 +4,7 @@ pub mod c03;
 pub mod c05;
 pub mod c06;
 pub mod c08;
+pub mod c09;
 pub mod c10;
 pub mod c11;
 pub mod c12;
@@ -25,6 +26,7 @@ pub fn run(prop: &str, tier: Tier, seed: u64) -> i32 {
         "C05" => c05::run(tier, seed),
         "C06" => c06::run(tier, seed),
         "C08" => c08::run(tier, seed),
+        "C09" => c09::run(tier, seed),
         "C10" => c10::run(tier, seed),
         "C11" => c11::run(tier, seed),
         "C12" => c12::run(tier, seed),
@@ -56,6 +58,7 @@ pub fn replay(prop: &str, path: &str) -> i32 {
         "C05" => c05::replay(&doc),
         "C06" => c06::replay(&doc),
         "C08" => c08::replay(&doc),
+        "C09" => c09::replay(&doc),
         "C10" => c10::replay(&doc),
         "C11" => c11::replay(&doc),
         "C12" => c12::replay(&doc),
